@@ -730,7 +730,33 @@ def r7(ctx):
     leave_roots = {p for p in f.bodies if re.search(r"LiveActor(::<D>)?::leave(::\{closure#0\})?$", p)}
     ctx.check(bool(callers) and bool(leave_roots) and all(c in leave_roots or f.only_reached_from(c, leave_roots) for c in callers), "C11.R7", rm.path, "document-slots-discarded-only-by-leave",
               "NamespaceStates::remove is called from %s (leave, or a helper only leave calls)" % callers, rm.sp)
-    ctx.floor("C11.R7", 2)
+    # round 14 (C11-13): ... and the only thing that *adds* a document to the set of documents being synced is NamespaceStates::insert
+    # ("requests for documents that are not being synced are declined as not found": an accessor that looks a document up with
+    # `entry(..).or_default()` puts a document that was left back into the set)
+    ADD = {"insert", "entry", "or_default", "or_insert", "or_insert_with", "or_insert_with_key", "extend", "try_insert", "append"}
+    ins_roots = {"engine::state::NamespaceStates::insert"}
+    n_doc = 0
+    adders = []
+    for b in f.bodies.values():
+        if not b.path.startswith("engine::") or b.rec.get("derived"):
+            continue
+        for bi, t in b.calls():
+            if mir.is_noise(t.get("x")):
+                continue
+            full = (t["f"].get("full") or "") + " " + " ".join(t["f"].get("targs") or [])
+            nm = t["f"].get("name")
+            if re.search(r"engine::state::NamespaceState\b", full) and ("BTreeMap" in full or "HashMap" in full or "btree_map" in full or "hash_map" in full):
+                n_doc += 1
+                if nm in ADD:
+                    root = b.rec.get("root") or b.path
+                    if not (root in ins_roots or f.only_reached_from(root, ins_roots)):
+                        adders.append((b, t, nm))
+    if n_doc < 1:
+        raise mir.AnchorMissing("no call on the document-level map (a map with NamespaceState values) found under engine::")
+    for b, t, nm in adders:
+        ctx.bad("C11.R7", b.path, "document-added-outside-insert[%s]" % nm, "`%s` on the map of documents being synced outside NamespaceStates::insert: a document that is not being synced can (re-)enter the set" % nm, t["sp"])
+    ctx.ok("C11.R7", "engine::state", "documents-added-only-by-insert", "%d calls on the document-level map, entry-creating ones only in NamespaceStates::insert" % n_doc, None)
+    ctx.floor("C11.R7", 3)
 
 
 def r8(ctx):
